@@ -312,7 +312,9 @@ fn values(ctx: &mut Ctx, tier: Tier, only: Option<(&str, usize)>) {
 
 const KEYS: [&str; 4] = ["a", "b", "z", "%61"];
 // DESIGN's eight values plus one escape written with a lower-case hex digit (RFC 3986 2.1: both cases are equivalent)
-const VALUES: [&str; 9] = ["", "a", "%41", "%4", "%zz", "+", "%E3%81%82", "a%26b", "%4a"];
+// ... and a value with a raw `=` (a base64 padding, a nested URL): the parts are `&`/`=`-separated, the value is what follows
+// the first `=` of its part
+const VALUES: [&str; 10] = ["", "a", "%41", "%4", "%zz", "+", "%E3%81%82", "a%26b", "%4a", "YQ=="];
 
 pub enum Expect<T> { Value(T), Err(&'static str), /// the pairs are well-defined but one does not denote a value of its field's type
     Refuse(&'static str), Ambiguous(&'static str) }
@@ -441,6 +443,7 @@ fn text_feature(raw: &[(&[u8], Option<&[u8]>)], fields: &[&str]) -> &'static str
     if vals.iter().any(|v| v.windows(3).any(|w| w == b"%26")) { return "escaped-delimiter-in-value" }
     if vals.iter().any(|v| v.starts_with(b"%E3")) { return "escaped-multibyte-value" }
     if vals.iter().any(|v| v.contains(&b'%')) { return "escaped-ascii-value" }
+    if vals.iter().any(|v| v.contains(&b'=')) { return "raw-equals-in-value" }
     if vals.iter().any(|v| v.contains(&b'+')) { return "plus-in-value" }
     if vals.iter().any(|v| v.is_empty()) { return "empty-value" }
     "plain"
@@ -485,6 +488,9 @@ fn check_text_target<T: TextTarget>(ctx: &mut Ctx, text: &[u8], raw: &[(&[u8], O
     let feature = text_feature(raw, T::FIELDS);
     let collision = feature != "plain" && feature != "no-pairs" && feature != "empty-value";
     let expect: Expect<T> = match decoded {
+        // the typed readers refuse a second `=` in a part (`a=1=2` is listed as malformed by the crate's own tests); the pair
+        // reading - value = everything after the first `=` - is demanded of the query iterator only
+        _ if raw.iter().any(|(_, v)| v.map_or(false, |v| v.contains(&b'='))) => Expect::Ambiguous("raw-equals-in-value"),
         Err(refenc::Undefined::MalformedEscape) => Expect::Ambiguous("malformed-escape"),
         Err(refenc::Undefined::NotUtf8) => Expect::Ambiguous("escape-not-utf8"),
         Err(refenc::Undefined::NoEquals) => Expect::Ambiguous("part-without-equals"),
